@@ -720,6 +720,29 @@ def rule_r7(prog, res):
                             'where its single argument belongs, or a present '
                             'message would be discarded' % (
                                 '' if p_ else 'not ', t))
+            # one placeholder per declared argument
+            cnt = a.value.right
+            src = unparse(cnt)
+            for nm_ in {y.id for y in ast.walk(cnt)
+                        if isinstance(y, ast.Name)}:
+                vs = [x.value for x in walk_no_defs(pr.node)
+                      if isinstance(x, ast.Assign) and any(
+                          isinstance(t, ast.Name) and t.id == nm_
+                          for t in x.targets)]
+                if len(vs) == 1:
+                    src = src.replace(nm_, unparse(vs[0]))
+            ok = 'in_message' in src and 'out_message' not in src
+            res.ob('R7', where, 'process_request sizes the placeholder list '
+                   'by %s' % src, 'ok' if ok else 'VIOLATED')
+            if not ok:
+                res.finding('R7', 'Application.process_request|nil-message-'
+                            'sized-by|%s' % src, where, 'a nil message is '
+                            'expanded into %s placeholders, not one per '
+                            'member of the in-message: a method whose '
+                            'argument and return counts differ is called '
+                            'with the wrong number of arguments (TypeError, '
+                            'a Server fault) where NullServer returns the '
+                            'result' % src)
     res.floor('R7', 'nil message expansions in process_request', k, 1)
 
 
@@ -961,6 +984,12 @@ _A = 'spyne/application.py'
 _D = 'spyne/descriptor.py'
 
 MUTANTS = [
+    Mutant('nil-message-sized-by-out-message', 'R7', 'fire',
+           'spyne/application.py',
+           in_func('Application.process_request',
+                   "len(ctx.descriptor.in_message._type_info)",
+                   "len(ctx.descriptor.out_message._type_info)"),
+           'nil-message-sized-by'),
     Mutant('falsy-defaults-skipped', 'R10', 'fire', 'spyne/model/complex.py',
            in_func('_set_member_default', "    if def_val is not None:\n",
                    "    if def_val:\n"), 'truthiness'),
